@@ -20,6 +20,9 @@
       `final = Gen.SrcC02.emission_final_flux` it is the eclipse spectrum (`srcEclipse`), with `final = id` the `flux_total`
       handed to `compute_final_flux`.  Additional tie hypothesis: `xs.length = wts.length`.
     * `Gen.SrcC02.star_sed (Gen.SrcC02.star_initialize …)` as the stellar SED in `src_eclipse_isothermal_exact`.
+    * `srcContrib … j` = column `j` of the contribution function `tau` the regenerated `evaluate_emission` returns as its
+      fourth component (`Gen.SrcC02.evaluate_emission_tau`; `path_integral` hands it on untouched: `src_path_integral_tau`),
+      = the model's `contribFn` (same tie hypotheses).  `contrib_sum` is restated (`src_contrib_sum`).
     * `Gen.SrcC02.set_num_gauss` / `Gen.SrcC02.evaluate_emission_mu` for the quadrature identity (`angleSum`, the sum inside
       `path_integral`, stays the model's).
 
@@ -30,7 +33,10 @@
     * `surf_sound`: about the model's `keepFrom` / `surfTau`, intermediate values `evaluate_emission` does not return.
     * In `src_clamp_band` the documented (unclamped) integral stays the model's `intensityUncut` and the clamped layers are
       read off the model's `rowsOf`: the code contains no unclamped evaluation.
-    * the correlated-k branch (`evaluate_emission_ktables`) is tied in `Props/C20Src.lean`, not here.
+    * `contrib_eq_coeff`: about one arbitrary row (`contribOf` vs `coeff`); its instance on the rows of `evaluate_emission` is
+      used inside `src_contrib_sum`.
+    * the correlated-k branch (`evaluate_emission_ktables`) is tied in `Props/C20Src.lean`, not here (its `tau` component:
+      see the report — the clamp is a minimum over the wavenumber axis, which that tie lifts).
 -/
 import Props.C02
 import Props.C02Src
@@ -225,5 +231,44 @@ theorem src_eclipse_between (tauE : ℝ) (cols : List (Col ℝ)) (dz dens temps 
   exact eclipse_between 𝓚 cols dz dens temps _ tmin tmax sed rp rs xs wts hv hsed hlen hx hw h0 h1
 
 end
+
+/-! ### `evaluate_emission`: the contribution function -/
+
+/-- column `j` of the contribution function `tau` the regenerated `evaluate_emission` returns (cross-section branch; what
+    `path_integral` and `model()` hand on: `src_path_integral_tau`), one entry per layer -/
+noncomputable def srcContrib (cols : List (Col ℝ)) (dz dens temps : List ℝ) (nc : ℕ) (ktT : ℕ → ℕ → ℝ) (j : ℕ) : List ℝ :=
+  (List.range temps.length).map (fun l =>
+    Gen.SrcC02.evaluate_emission_tau cols.length (10 : ℝ) (dispatch cols) (fn dz) (fn dens) ktT temps.length nc false l j)
+
+theorem srcContrib_eq (k : PC ℝ) (cols : List (Col ℝ)) (dz dens temps : List ℝ) (nc : ℕ)
+    (hsig : ∀ j, j < cols.length → (cols.getD j ⟨0, []⟩).sig.length = nc) (ktT : ℕ → ℕ → ℝ) (j : ℕ)
+    (hj : j < cols.length) :
+    srcContrib cols dz dens temps nc ktT j = contribFn k cols dz dens temps (cols.getD j ⟨0, []⟩) := by
+  unfold srcContrib
+  apply List.ext_getElem
+  · simp [contribFn, rowsOf, rowsWith]
+  · intro l h1 h2
+    have hl : l < temps.length := by simpa using h1
+    rw [List.getElem_map, List.getElem_range,
+      src_evaluate_emission_tau k cols dz dens temps nc hsig ktT l j hl hj]
+    rw [List.getD_eq_getElem?_getD, List.getElem?_eq_getElem h2]
+    rfl
+
+/-- **`contrib_sum` about the regenerated source**: the contribution function the regenerated `evaluate_emission` returns
+    is non-negative, and its entries at one wavenumber sum to the absorbed fraction of the vertical ray through the whole
+    column, within the licensed `exp(-10)` above `1 - exp(-surface_tau)` -/
+theorem src_contrib_sum (cols : List (Col ℝ)) (dz dens temps : List ℝ) (nc : ℕ)
+    (hsig : ∀ j, j < cols.length → (cols.getD j ⟨0, []⟩).sig.length = nc) (ktT : ℕ → ℕ → ℝ) (j : ℕ)
+    (hj : j < cols.length) (hn : ∀ c ∈ cols, InputsNonneg c.sig dz dens) :
+    (∀ x ∈ srcContrib cols dz dens temps nc ktT j, 0 ≤ x) ∧
+    1 - Real.exp (-(surfTau dz dens temps (cols.getD j ⟨0, []⟩))) ≤ (srcContrib cols dz dens temps nc ktT j).sum ∧
+    (srcContrib cols dz dens temps nc ktT j).sum
+      ≤ 1 - Real.exp (-(surfTau dz dens temps (cols.getD j ⟨0, []⟩))) + Real.exp (-10) := by
+  have hmem : cols.getD j ⟨0, []⟩ ∈ cols := by
+    rw [List.getD_eq_getElem?_getD, List.getElem?_eq_getElem hj]
+    exact List.getElem_mem hj
+  rw [srcContrib_eq ⟨0, 0, 0, 0, 0, 0⟩ cols dz dens temps nc hsig ktT j hj]
+  obtain ⟨h1, -, h3, h4⟩ := contrib_sum ⟨0, 0, 0, 0, 0, 0⟩ cols dz dens temps _ hmem hn
+  exact ⟨h1, h3, h4⟩
 
 end Taurex.C02SrcProps
